@@ -74,6 +74,8 @@ def h_opcode(ctx, cmd):
         serviceaction = real.serviceaction
         name = "BOGUS"
     a, e = K.concrete_args(spec)
+    if ctx.choose("history", ["first use of the class", "after a valid command of the same class"]):
+        K.build(spec, real, a, e)
     stt, r = ctx.attempt(K.get_class(spec), Op, **dict(a, **e))
     ctx.check("refused", ctx.oracle(stt == "exc"))
     if stt == "exc":
@@ -184,8 +186,9 @@ def h_transport_id(ctx, via, case):
     tid = {"protocol_id": 5, "iscsi_name": "iqn.2001-04.com.example:x"}
     if case == "sid-without-flag":
         tid["iscsi_initiator_session_id"] = "0123"
-        if ctx.choose("flag", ["absent", "zero"]):
-            tid["tpid_format"] = 0
+        w = ctx.choose("flag", ["absent", "zero", "none"])
+        if w:
+            tid["tpid_format"] = 0 if w == 1 else None
     else:
         tid["tpid_format"] = 1
         which = ctx.choose("sid", ["absent", "empty", "none"])
